@@ -144,6 +144,35 @@ def _cli(argv: List[str]) -> Any:
         _CLI_SINK.truncate()
 
 
+def bad_pdx() -> str:
+    """A PDX file with a dangling DOP reference: loading it is an error in strict mode only."""
+    pid = os.getpid()
+    key = -pid
+    if key not in _TINY or not os.path.exists(_TINY[key]):
+        import zipfile
+        path = os.path.join(emit.scratch_dir(), "bad_c17.pdx")
+        with zipfile.ZipFile(path, "w") as z:
+            for fn, xml in emit.db_files(dangling_db()).items():
+                z.writestr(fn, xml)
+        _TINY[key] = path
+    return _TINY[key]
+
+
+_STORED: Dict[str, Any] = {}
+
+
+def _build_state() -> str:
+    from odxtools.decodestate import DecodeState
+    _STORED["state"] = DecodeState(coded_message=bytes([0xC3, 0x28]))
+    return "built"
+
+
+def _decode_with_stored_state() -> Any:
+    from odxtools.decodestate import DecodeState
+    st = _STORED.pop("state", None) or DecodeState(coded_message=bytes([0xC3, 0x28]))
+    return menu_objs()["rq_utf8"].decode_from_pdu(st)
+
+
 def _load_summary(spec: Dict[str, Any]) -> Any:
     db = emit.load_db(spec)
     return sorted(l.short_name for l in db.diag_layers)
@@ -163,14 +192,21 @@ MENU: List[Tuple[str, Callable[[], Any]]] = [
     ("load-unresolvable-snref", lambda: _load_summary(ambiguous_snref_db())),
     # control: a mode-insensitive valid operation
     ("encode-valid", lambda: menu_objs()["rq_v8"].encode(v=7)),
+    # a decode state that was constructed earlier (possibly under another mode) is used after the flip
+    ("build-decode-state", lambda: _build_state()),
+    ("decode-invalid-utf8-with-stored-state", lambda: _decode_with_stored_state()),
     # the command line front end switches the mode itself and must put it back, whatever the tool does
     ("cli-no-strict-list", lambda: _cli(["--no-strict", "list", tiny_pdx()])),
     ("cli-no-strict-failing-tool", lambda: _cli(["--no-strict", "list", "/nonexistent/file.pdx"])),
     ("cli-strict-failing-tool", lambda: _cli(["list", "/nonexistent/file.pdx"])),
+    # without --no-strict the tool runs strictly and with it leniently, whatever mode the calling process is in
+    ("cli-strict-bad-db", lambda: _cli(["list", bad_pdx()])),
+    ("cli-no-strict-bad-db", lambda: _cli(["--no-strict", "list", bad_pdx()])),
 ]
 MENU_NAMES = [n for n, _ in MENU]
-CLI_OPS = {"cli-no-strict-list", "cli-no-strict-failing-tool", "cli-strict-failing-tool"}
-DOWNGRADABLE = set(MENU_NAMES) - {"encode-valid"} - CLI_OPS
+CLI_OPS = {"cli-no-strict-list", "cli-no-strict-failing-tool", "cli-strict-failing-tool", "cli-strict-bad-db", "cli-no-strict-bad-db"}
+NEUTRAL_OPS = {"build-decode-state"}
+DOWNGRADABLE = set(MENU_NAMES) - {"encode-valid"} - CLI_OPS - NEUTRAL_OPS
 
 
 def baseline_main() -> None:
@@ -206,6 +242,7 @@ def fresh_baseline(strict: bool) -> Dict[str, Any]:
 def run_schedule(ops: Tuple[int, ...], modes: Tuple[bool, ...]) -> List[Tuple[str, Any]]:
     out = []
     import odxtools.exceptions
+    _STORED.clear()
     for op, mode in zip(ops, modes):
         set_mode(mode)
         o = _outcome(MENU[op][1])
@@ -254,8 +291,13 @@ def schedule_unit(unit: Tuple[int, int, Dict[str, Any], Dict[str, Any]]) -> Part
     first, maxlen, base_s, base_l = unit
     part = Part()
     seen_states = set()
+    core = [i for i, nm in enumerate(MENU_NAMES) if nm not in CLI_OPS]
     for n in range(1, maxlen + 1):
-        for rest in itertools.product(range(len(MENU)), repeat=n - 1):
+        # the longest schedules are drawn from the core menu (no command line runs), shorter ones from the full menu
+        pool = range(len(MENU)) if n < maxlen else core
+        if n == maxlen and first not in core:
+            continue
+        for rest in itertools.product(pool, repeat=n - 1):
             ops = (first,) + rest
             for modes in itertools.product((True, False), repeat=n):
                 res = run_schedule(ops, modes)
@@ -362,7 +404,13 @@ def dispatch_db() -> Dict[str, Any]:
         {"kind": "POS-RESPONSE", "name": "pr_C", "params": [cc("sid", 0x50), P("VALUE", "v", dop="u8")]},
         {"kind": "POS-RESPONSE", "name": "pr_D", "params": [cc("sid", 0x50), P("VALUE", "w", dop="u16")]},
     ]
-    svcs = [{"name": "svc_A", "request": "rq_A", "pos": ["pr_A1", "pr_A2", "pr_A3"]},
+    msgs += [
+        {"kind": "NEG-RESPONSE", "name": "nr_A", "params": [cc("sid", 0x7F), P("MATCHING-REQUEST-PARAM", "rq", rq_byte=0, len=1),
+                                                             P("NRC-CONST", "nrc", dct=U8, values=[0x31, 0x33], byte=2), P("VALUE", "code", dop="u8", byte=2)]},
+        {"kind": "GLOBAL-NEG-RESPONSE", "name": "gnr", "params": [cc("sid", 0x7F), P("MATCHING-REQUEST-PARAM", "rq", rq_byte=0, len=1),
+                                                                   P("NRC-CONST", "nrc", dct=U8, values=[0x10, 0x11], byte=2), P("VALUE", "code", dop="u8", byte=2)]},
+    ]
+    svcs = [{"name": "svc_A", "request": "rq_A", "pos": ["pr_A1", "pr_A2", "pr_A3"], "neg": ["nr_A"]},
             {"name": "svc_C", "request": "rq_C", "pos": ["pr_C"]}, {"name": "svc_D", "request": "rq_D", "pos": ["pr_D"]}]
     return {"containers": [{"name": "CDI", "layers": [{"type": "BASE-VARIANT", "name": "LDI", "dops": dops, "msgs": msgs, "svcs": svcs}]}]}
 
@@ -387,7 +435,7 @@ def dispatch_unit(shard: Tuple[int, int, int]) -> Part:
     set_mode(True)
     db = emit.load_db(dispatch_db())
     layer = db.diag_layers["LDI"]
-    alpha = [0x62, 0x22, 0x10, 0x50, 0x01, 0x00, 0x41, 0xC3]
+    alpha = [0x62, 0x22, 0x10, 0x50, 0x01, 0x00, 0x41, 0xC3, 0x7F, 0x31, 0x11]
     msgs = [bytes(t) for ln in range(0, maxlen + 1) for t in itertools.product(alpha, repeat=ln)]
     for i, m in enumerate(msgs):
         if i % n != k:
@@ -433,7 +481,15 @@ def run(ctx: Ctx) -> None:
                     ctx.violation(f"C17/menu/{name}/not-an-error-in-strict-mode", {"mode": "menu", "op": name}, f"fresh strict process: {s}")
                 elif l[0] == "error" and l[1] == s[1]:
                     ctx.violation(f"C17/menu/{name}/not-downgraded-in-lenient-mode", {"mode": "menu", "op": name}, f"fresh lenient process: {l}")
-            elif name in CLI_OPS:
+            elif name == "cli-strict-bad-db":
+                if s[0] != "error" or l != s:
+                    ctx.violation(f"C17/menu/{name}/cli-without-no-strict-is-not-strict", {"mode": "menu", "op": name},
+                                  f"fresh strict process: {s}, fresh lenient process: {l}")
+            elif name == "cli-no-strict-bad-db":
+                if s[0] == "error" or l != s:
+                    ctx.violation(f"C17/menu/{name}/cli-with-no-strict-is-not-lenient", {"mode": "menu", "op": name},
+                                  f"fresh strict process: {s}, fresh lenient process: {l}")
+            elif name in CLI_OPS or name in NEUTRAL_OPS:
                 pass
             else:
                 if s != l or s[0] != "ok":
@@ -451,7 +507,7 @@ def run(ctx: Ctx) -> None:
             space.layer_a_string_units(True) + space.layer_a_mask_units(True) + space.layer_a_float_units(True) + space.layer_a_int_units(True)[::3]
         cunits += a_units
         pmap(ctx, corpus_unit, cunits)
-        pmap(ctx, dispatch_unit, [(k, 16, 4 if ctx.quick else 5) for k in range(16)])
+        pmap(ctx, dispatch_unit, [(k, 32, 4 if ctx.quick else 5) for k in range(32)])
         ctx.counts["traces_validated_against_impl"] = ctx.counts.get("evaluations", 0)
         ctx.sample({"ops": ["decode-invalid-utf8", "encode-valid", "decode-invalid-utf8"], "modes": ["strict", "lenient", "strict"]})
         ctx.guard("strict successes > 1000", ctx.counts.get("strict_successes", 0) > 1000)
@@ -473,6 +529,14 @@ def replay(case: Any) -> List[Tuple[str, str]]:
                     out.append((f"C17/menu/{name}/not-an-error-in-strict-mode", str(s)))
                 elif l[0] == "error" and l[1] == s[1]:
                     out.append((f"C17/menu/{name}/not-downgraded-in-lenient-mode", str(l)))
+            elif name == "cli-strict-bad-db":
+                if s[0] != "error" or l != s:
+                    out.append((f"C17/menu/{name}/cli-without-no-strict-is-not-strict", f"{s} {l}"))
+            elif name == "cli-no-strict-bad-db":
+                if s[0] == "error" or l != s:
+                    out.append((f"C17/menu/{name}/cli-with-no-strict-is-not-lenient", f"{s} {l}"))
+            elif name in CLI_OPS or name in NEUTRAL_OPS:
+                pass
             elif s != l or s[0] != "ok":
                 out.append((f"C17/menu/{name}/valid-operation-depends-on-mode", f"{s} {l}"))
             return out
